@@ -1,19 +1,18 @@
 #!/bin/bash
 # usage: tools/seedrun.sh  — run every seeded change against the check of its property
 # (through the overlay, /repo untouched) and write seeded/RESULTS.json
+# env: SEED_FILTER=<regex on the seed name> (others keep their previous result), SEED_JOBS=<n> parallel runs (default 3)
 cd "$(dirname "$(readlink -f "$0")")/.." || exit 2
 python3 - <<'P'
-import json, glob, subprocess, os
-res=[]
-import sys
+import json, glob, subprocess, os, re
+from concurrent.futures import ThreadPoolExecutor
 flt=os.environ.get('SEED_FILTER','')
+jobs=int(os.environ.get('SEED_JOBS','3'))
 old={r['name']:r for r in (json.load(open('seeded/RESULTS.json')) if os.path.exists('seeded/RESULTS.json') else [])}
-for d in sorted(glob.glob('seeded/*/')):
-    if flt and flt not in d:
-        nm=os.path.basename(d.rstrip('/'))
-        if nm in old: res.append(old[nm])
-        continue
+def run(d):
     name=os.path.basename(d.rstrip('/'))
+    if flt and not re.search(flt,name):
+        return old.get(name)
     meta=json.load(open(d+'meta.json'))
     pid=meta['property']
     extra=meta.get('also_checks',[])
@@ -28,7 +27,10 @@ for d in sorted(glob.glob('seeded/*/')):
                     if l.strip().startswith('witness:'): wit=l.strip()[9:]; break
         elif p.returncode==2:
             caught.append(chk+'(engine-error: '+(p.stdout.strip().splitlines() or ['?'])[-1][:80]+')')
-    res.append({'name':name,'property':pid,'needs':meta.get('needs',''),'caught_by':', '.join(caught) or 'MISSED','witness':wit})
-    print(name,pid,'->',res[-1]['caught_by'])
+    r={'name':name,'property':pid,'needs':meta.get('needs',''),'caught_by':', '.join(caught) or 'MISSED','witness':wit}
+    print(name,pid,'->',r['caught_by'],flush=True)
+    return r
+with ThreadPoolExecutor(jobs) as ex:
+    res=[r for r in ex.map(run,sorted(glob.glob('seeded/*/'))) if r]
 json.dump(res,open('seeded/RESULTS.json','w'),indent=1)
 P
